@@ -4,9 +4,17 @@ ID = 'C11'
 UNITS = {'net': dict(wrap='wrap_net.cc', new_block=64, cxxflags=['-fno-inline'], cuts=['basic_stringIcSt11char_traitsIcESaIcEE9_M_createERmm$', '^_ZNSt7__cxx119to_stringEi$'], extra_c=['sso_bound.c'],
                      ir2c_flags=['--ptrdiff', '--flat-unions'], gen_defs=['VERIF_NEW_POOL=8']),
          'enc': dict(wrap='wrap.cc', new_block=64, per_harness={'h_b64dec.c': {'new_block': 320}, 'h_b64enc.c': {'new_block': 320}})}
-BOUNDS = 'base64_decode: every input of length 0..8 over all 256 byte values, both alphabets'
-STUBS = []
-OUTSIDE = []
+BOUNDS = ('base64_decode: every input of length 0..8 (0..12 thorough) over all 256 byte values, both alphabets; base64_encode + decode(encode(x)): data 0..4 (0..7) bytes; '
+          'rot13: 0..4 (0..6) bytes; escapers: 0..2 (0..3) bytes; render/parse_netloc: host of 1 (1..3) symbolic colon-free bytes, EVERY port 0..65535 and default port 0..65535 symbolic')
+STUBS = ['vasprintf (h_escape.c): engine/rt/stub_printf.h, exact hex model',
+         'std::to_string(int) (h_netloc.c, generated-C modes only): exact division-free decimal model for |value| < 100000 building the small-string object by hand; the native real build runs the real libstdc++ '
+         'function and translation validation compares both character by character',
+         'strtod (h_netloc.c): exact for texts of 1..5 decimal digits, contract (arbitrary value, end inside the text) otherwise',
+         "unit 'net': std::string::_M_create cut to a reported bound failure (strings <= 15 bytes), deterministic pool allocator, std::allocator<char> no-ops (sso_bound.c)"]
+OUTSIDE = ['inputs longer than the stated lengths',
+           'render_netloc with ports outside 0..65535 (parse_netloc returns uint16_t: no round trip is claimed there) and hosts longer than 3 bytes or containing a colon',
+           'the real libstdc++ std::to_string digit loop on a symbolic value: its symbolic-position writes into the std::string object send CBMC into its array theory (no verdict, > 8 GB); replaced by the model above',
+           'escape_quotes is not injective (it does not escape backslash): only "no raw quote, no non-printable byte" is claimed for it, as in the statement']
 ASSUMPTIONS = []
 
 def queries(tier):
